@@ -25,6 +25,9 @@ func btWrite(root string, files, deps map[string]string) error {
 		return err
 	}
 	for n, src := range files {
+		if err := os.MkdirAll(filepath.Dir(filepath.Join(dir, n)), 0o755); err != nil {
+			return err
+		}
 		if err := os.WriteFile(filepath.Join(dir, n), []byte(src), 0o644); err != nil {
 			return err
 		}
@@ -48,6 +51,16 @@ func btReadBack(dir string) (map[string]string, error) {
 		return nil, err
 	}
 	for _, e := range ents {
+		if e.IsDir() {
+			sub, err := btReadBack(filepath.Join(dir, e.Name()))
+			if err != nil {
+				return nil, err
+			}
+			for n, c := range sub {
+				out[e.Name()+"/"+n] = c
+			}
+			continue
+		}
 		b, err := os.ReadFile(filepath.Join(dir, e.Name()))
 		if err != nil {
 			return nil, err
@@ -101,7 +114,7 @@ func init() {
 			}
 			return snapshotUniverse(u), nil
 		},
-		Run: func(files, deps map[string]string, tag, out string) (map[string]string, *common.USnap, error) {
+		Run: func(files, deps map[string]string, tag, out string, wild bool) (map[string]string, *common.USnap, error) {
 			gopathMu.Lock()
 			defer gopathMu.Unlock()
 			root, err := os.MkdirTemp("", "verif-bt-")
@@ -113,7 +126,11 @@ func init() {
 				return nil, nil, err
 			}
 			useGopath(root)
-			ga := &args.GeneratorArgs{InputDirs: []string{btPkg}, OutputBase: filepath.Join(root, "src"), GeneratedBuildTag: tag,
+			inputs, pkgName, pkgPath := []string{btPkg}, "p", btPkg
+			if wild {
+				inputs, pkgName, pkgPath = []string{btPkg + "/..."}, "zzgen", btPkg+"/zzgen"
+			}
+			ga := &args.GeneratorArgs{InputDirs: inputs, OutputBase: filepath.Join(root, "src"), GeneratedBuildTag: tag,
 				GoHeaderFilePath: filepath.Join(root, "boilerplate.txt"), OutputFileBaseName: strings.TrimSuffix(out, ".go")}
 			var seen *common.USnap
 			var herr error
@@ -124,7 +141,7 @@ func init() {
 					var boilerplate []byte
 					boilerplate, herr = a.LoadGoBoilerplate()
 					header := append([]byte(fmt.Sprintf("//go:build !%s\n// +build !%s\n\n", a.GeneratedBuildTag, a.GeneratedBuildTag)), boilerplate...)
-					return generator.Packages{&generator.DefaultPackage{PackageName: "p", PackagePath: btPkg, HeaderText: header,
+					return generator.Packages{&generator.DefaultPackage{PackageName: pkgName, PackagePath: pkgPath, HeaderText: header,
 						GeneratorList: []generator.Generator{inplaceGen{DefaultGen: generator.DefaultGen{OptionalName: a.OutputFileBaseName}, pkg: btPkg}}}}
 				})
 			if err == nil {
